@@ -8,7 +8,16 @@ Obligations: coq/props/C17Css.v.  Tie: every generated stylesheet (same generato
 plus bodies whose last declaration is terminated by the end of the body) goes through
 emmet.action_utils at every position and through the extracted model.  Search: the ground
 truth recorded by the generator (rules, declarations with name / value / value tokens /
-before / after offsets) is the oracle."""
+before / after offsets) is the oracle.
+
+Declarations WITHOUT a value (`name:;`, `name: ;`, `name: /* c */ ;` -- a declaration being
+typed) come from a second stream (gen_sheet_ev below): the shared generator always writes at
+least one value atom.  For such a declaration the statement fixes name, before and after, an
+empty value range and no value tokens, but not WHERE between the colon and the terminator the
+empty range sits; the oracle therefore takes that one offset from the implementation's own
+answer (select-next asked from inside the name must select the value part of that
+declaration), admits it only when colon < offset <= terminator, and then demands every
+observation at every position to agree with the record completed by that offset."""
 import json
 import os
 
@@ -32,16 +41,155 @@ def load_corpus():
     return out
 
 
+# ------------------------------------------------------------------ declarations without a value
+# `name:` directly before the closing brace (no value AND no `;`): get_css_section() does not report
+# such a declaration at all although select_item_css() treats it like `name:;` (see the final report
+# of the strengthening round; same in upstream Emmet).  The class stays generated only on request.
+EMPTY_VALUE_AT_BODY_END = False
+
+EMPTY_FILL = ['', '', '', ' ', ' ', '  ', '\n', '\n    ', '\t', '\r\n', '\xa0']
+STRAY = [';', ';', ';;', '; ;', ';\n;']
+
+
+def gen_empty_decl(rng, o, cover, terminated=True):
+    """`name [blank] : [blanks / comments] ;` -- no value atom.  vstart / vend stay None in the
+    record (completed by complete_empty); tokens == []."""
+    d = {'t': 'decl', 'empty': True}
+    name = rng.choice(U.NAMES)
+    d['start'] = o.pos
+    o.w(name)
+    d['name_end'] = o.pos
+    if rng.random() < 0.15:
+        o.w(U.rnd_ws(rng, False))
+    d['colon'] = o.pos
+    o.w(':')
+    fill = rng.choice(EMPTY_FILL)
+    if rng.random() < 0.25:
+        fill += rng.choice(U.COMMENTS) + rng.choice(EMPTY_FILL)
+        cover('gen:empty-value:comment-before-terminator')
+    elif fill:
+        cover('gen:empty-value:blank-before-terminator')
+    else:
+        cover('gen:empty-value:terminator-directly-after-colon')
+    o.w(fill)
+    d['vstart'] = d['vend'] = None
+    d['tokens'] = []
+    if terminated:
+        d['semi'] = o.pos
+        o.w(';')
+        d['end'] = o.pos
+    else:
+        d['semi'] = None
+        d['end'] = o.pos
+        cover('gen:empty-value:terminated-by-body-end')
+    return d
+
+
+def gen_items_ev(rng, o, cover, depth, max_depth, n_max, semis, top, p_empty, p_stray):
+    """U.gen_items with two more alternatives: a declaration without a value, and stray `;`
+    (empty statements) wherever a declaration could start."""
+    items = []
+    n = rng.randint(1, n_max)
+    for i in range(n):
+        o.w(U.rnd_gap(rng, cover))
+        if rng.random() < p_stray and (not items or items[-1]['t'] == 'rule' or items[-1]['semi'] is not None):
+            o.w(rng.choice(STRAY) + U.rnd_ws(rng))
+            cover('gen:stray-semicolon')
+        last = i == n - 1
+        if depth < max_depth and rng.random() < (0.6 if top else 0.25):
+            r = {'t': 'rule'}
+            r['start'], r['sel_end'] = U.gen_selector(rng, o, cover)
+            o.w(U.rnd_ws(rng))
+            r['brace'] = o.pos
+            o.w('{')
+            r['children'] = gen_items_ev(rng, o, cover, depth + 1, max_depth, n_max, semis, False, p_empty, p_stray)
+            r['close'] = o.pos
+            o.w('}')
+            r['end'] = o.pos
+            items.append(r)
+            continue
+        term = True
+        if not semis and last and not top and rng.random() < 0.5:
+            term = False
+        if rng.random() < p_empty and (term or EMPTY_VALUE_AT_BODY_END):
+            d = gen_empty_decl(rng, o, cover, term)
+            cover('gen:empty-value:' + ('top-level' if top else 'first-in-body' if not items else 'after-%s' % (
+                'rule' if items[-1]['t'] == 'rule' else 'empty-value declaration' if items[-1].get('empty')
+                else 'declaration')))
+            if last:
+                cover('gen:empty-value:last-item')
+            items.append(d)
+        else:
+            items.append(U.gen_decl(rng, o, cover, term))
+    o.w(U.rnd_gap(rng, cover))
+    if rng.random() < p_stray and (items[-1]['t'] == 'rule' or items[-1]['semi'] is not None):
+        o.w(rng.choice(STRAY) + U.rnd_ws(rng))
+        cover('gen:stray-semicolon')
+    return items
+
+
+def has_empty(items):
+    return any(n['t'] == 'decl' and n.get('empty') for n in U.preorder(items))
+
+
+def gen_sheet_ev(rng, cover=lambda k: None, semis=True, max_depth=2, n_max=3):
+    """A sheet with at least one declaration without a value (first / middle / last of a body,
+    at the top level, before a nested rule, several in a row), stray semicolons now and then."""
+    while True:
+        o = U.Out()
+        quiet = []
+        items = gen_items_ev(rng, o, quiet.append, 0, max_depth, n_max, semis, True,
+                             rng.choice([0.3, 0.5, 0.8]), rng.choice([0.0, 0.1, 0.3]))
+        if has_empty(items):
+            for k in quiet:
+                cover(k)
+            return o.text(), items
+
+
+def complete_empty(items, im, parent=None):
+    """Copy of the record in which every declaration without a value has its empty value range:
+    the start of what select-next returns one character into the name (the value part of that
+    very declaration is the next item there), admitted when colon < offset <= terminator (`;`, or
+    the closing brace of the parent for the guarded class); otherwise the terminator, so that
+    the comparison fails and shows what came back."""
+    out = []
+    for n in items:
+        n = dict(n)
+        if n['t'] == 'rule':
+            n['children'] = complete_empty(n['children'], im, n)
+        elif n.get('empty') and n.get('vstart') is None:
+            hi = n['semi'] if n['semi'] is not None else (parent['close'] if parent else n['end'])
+            got = im['next'][n['start'] + 2]
+            p = hi
+            if isinstance(got, tuple) and len(got) == 3 and isinstance(got[0], int) \
+                    and not isinstance(got[0], bool) and n['colon'] < got[0] <= hi:
+                p = got[0]
+            n['vstart'] = n['vend'] = p
+            if n['semi'] is None:
+                n['end'] = p
+        out.append(n)
+    return out
+
+
+EMPTY_NOTE = (' [a declaration without a value: its empty value range may sit anywhere after the colon up to the '
+              'terminator; the record uses the offset select-next reports from inside the name when that is admissible, '
+              'the terminator otherwise]')
+
+
 def oracle_doc(text, items, im):
     """first failing (pos, why, known_key) per function, over all positions; failures that
     belong to a listed finding class are kept apart (key != None)"""
     bad = {}
+    note = ''
+    if has_empty(items):
+        items = complete_empty(items, im)
+        note = EMPTY_NOTE
     for pos in range(-1, len(text) + 2):
         got = {f: im[f][pos + 1] for f in FUNCS}
         for f, why, key in U.c17_oracle(text, items, pos, got):
             k = (f, key)
             if k not in bad:
-                bad[k] = (pos, why)
+                bad[k] = (pos, why + note)
     return bad
 
 
@@ -57,7 +205,13 @@ def run_css(ctx):
             'every position -1..len+1; get_css_section(properties=True) and select_item_css(next / previous) compared '
             'with the generator\'s record (rule ranges, declaration name / value / value-token ranges, before / after '
             'offsets) and with the extracted model. An evaluation is one (sheet, position); non-trivial when a section '
-            'is found; distinct by (text, position).')
+            'is found; distinct by (text, position). Second stream: sheets with declarations WITHOUT a value '
+            '(`name:;`, blanks and / or comments between colon and `;`; first, middle, last of a body, at the top level, '
+            'before a nested rule, several in a row) and stray `;` between items; for these the record fixes name, '
+            'before, after, an empty value range and no value tokens, the offset of the empty range is taken from '
+            'select-next asked one character into the name and admitted only when colon < offset <= terminator, then '
+            'all three functions are compared at every position as for the first stream (and with the model). '
+            'Not generated (EMPTY_VALUE_AT_BODY_END off): `name:` with neither value nor `;` before the closing brace.')
     ctx.cov['rule'] = (ctx.cov['rule'] + ' || ' if ctx.cov.get('rule') else '') + rule
     corpus = load_corpus()
     docs = [(c['text'], c['items']) for c in corpus]
@@ -71,6 +225,9 @@ def run_css(ctx):
             docs.append(U.gen_sheet(rng, ctx.cover, semis, max_depth=3, n_max=3))
         else:
             docs.append(U.gen_sheet(rng, ctx.cover, semis, max_depth=4, n_max=4))
+    for _ in range(90 if quick else 1500):
+        docs.append(gen_sheet_ev(rng, ctx.cover, rng.random() < 0.5, max_depth=rng.choice([1, 2, 2, 3]),
+                                 n_max=rng.choice([2, 3, 3, 4])))
     texts = [t for t, _ in docs]
     impls = U.impl_docs(texts, FUNCS, procs)
     failures = []
@@ -129,11 +286,27 @@ def replay_css(ctx, obj):
     if text is None or rp.get('items') is None:
         print('replay names a broken obligation, no input: %s' % json.dumps(rp)[:500])
         return 1
-    im = U.impl_doc(text, FUNCS)
-    bad = oracle_doc(text, rp['items'], im)
-    if bad:
+    # The property speaks about every (document, position) whatever was asked before: the check meets a
+    # document after many other calls in the same process, a replay starts in a fresh one.  So the document is
+    # evaluated twice in this process (all positions, then all positions again): what a call leaves behind for
+    # the next one shows in the second pass.
+    # A failure of a class listed in known_findings.json is reported by the check as KNOWN-FINDING, never as
+    # a VIOLATION, so it does not make a replay fail either (a sheet with a brace-terminated declaration
+    # would otherwise "fail" on the unchanged library as well).
+    any_listed = False
+    for pass_no in (1, 2):
+        im = U.impl_doc(text, FUNCS)
+        bad = oracle_doc(text, rp['items'], im)
+        failing = 0
         for (f, key), (pos, why) in sorted(bad.items(), key=lambda kv: str(kv[0])):
-            print('input %r: %s%s' % (text, why, ' [listed finding %s]' % key if key else ''))
-        return 1
-    print('input %r: property holds at every position' % (text,))
+            listed = key is not None and ctx.match_known(key) is not None
+            failing += 0 if listed else 1
+            any_listed = any_listed or listed
+            if not listed or pass_no == 1:
+                print('input %r%s: %s%s' % (text, ' (second evaluation in the same process)' if pass_no == 2 else '', why,
+                                            ' [listed finding %s, not counted]' % key if listed else ''))
+        if failing:
+            return 1
+    print('input %r: property holds at every position, evaluated twice in a row%s'
+          % (text, ' (listed findings apart)' if any_listed else ''))
     return 0
